@@ -392,6 +392,16 @@ def run(prog, tier, extra=None):
                                 into_tx = True
                     if into_tx:
                         later |= _deps(ch6.rvalue(st[2], 0), gcv, ch6)
+        # the constructor's result may be handed straight to a helper together with the fee-dependent amount:
+        # `Self::with_payload_amount(Transaction::create_rebroadcast_bound_transaction(..), payout - fee)`
+        for rb in region | {cbb}:
+            t6 = gcv.term(rb)
+            if t6["k"] == "call" and rb != cbb:
+                origins6 = [ch6.origin(a) for a in t6["args"]]
+                if any(any(y[0] in ("call", "via") and isinstance(y[-1], int) and y[-1] == cbb for y in _wk6(o)) or any(y[0] == "local" and y[1] == d0 for y in _wk6(o)) for o in origins6) \
+                        and (_cn6(t6) or "").startswith(("saito_", "<saito_")):
+                    for o in origins6:
+                        later |= _deps(o, gcv, ch6) | {y[1] for y in _wk6(o) if y[0] == "local"}
         if fee_locals & (arg_deps | later):
             res.sample({"rule": R6, "site": gcv.loc(cbb), "fee_booked_at": gcv.loc(fb), "verdict": "the fee reaches the rebroadcast transaction"})
         else:
